@@ -58,6 +58,9 @@ type random struct {
 	// discard; place it on a node whose GPUs have another memory size; commit)
 	plan    []func() *cmdSpec
 	whatifs int
+	// noConvert: ConvertAllAllocatedToPipelined is not issued (worlds with DRA claims: the claim model identifies a pod
+	// with the job's current object and does not follow the operation's clone)
+	noConvert bool
 }
 
 func (g *random) wf() bool { return g.isWf }
@@ -252,7 +255,7 @@ func (g *random) next(w *world, step int) *cmdSpec {
 		cs = append(cs, choice{1, func() *cmdSpec { g.reset(); return &cmdSpec{Kind: "discard"} }})
 		cs = append(cs, choice{1, func() *cmdSpec { g.reset(); return &cmdSpec{Kind: "commit"} }})
 	}
-	if !g.hasEvict {
+	if !g.hasEvict && !g.noConvert {
 		var js []string
 		for j, n := range g.nAlloc {
 			if n > 0 {
@@ -701,6 +704,15 @@ func Run(dir string, seed uint64, n int, tier string) error {
 			if res.heteroReplace != "" {
 				out.Count("erasure:gpu-memory-pod-placed-on-other-gpu-memory-size-after-abandoned-placement(" + res.heteroReplace + "):" + stream)
 			}
+			if res.drift > 0 {
+				out.Count("programs-with-queue-usage-float-drift:" + stream)
+				out.CountN("dumps-with-queue-usage-float-drift", res.drift)
+			}
+			if res.claimRestores > 0 {
+				out.CountN("claims:rollbacks-and-discards-compared", res.claimRestores)
+				out.CountN("claims:commands-that-changed-the-claims-dump", res.claimMoves)
+				out.CountN("claims:rollbacks-and-discards-after-which-the-claims-differ", res.claimNotRestored)
+			}
 			if res.staleCommitted > 0 {
 				out.CountN("erasure:evicted-shared-pods-keeping-gpu-groups-of-an-abandoned-placement-after-commit", res.staleCommitted)
 			}
@@ -729,10 +741,10 @@ func Run(dir string, seed uint64, n int, tier string) error {
 		wg.Wait()
 		return out
 	}
-	cps := corpus()
+	cps := append(corpus(), claimsCorpus()...)
 	for i, res := range parallel(len(cps), func(i int) result {
 		k := cps[i]
-		res := runCase(k.c, k.fails, &scripted{cmds: k.cmds, isWf: k.wf}, 100)
+		res := runCaseD(k.c, k.dra, k.fails, &scripted{cmds: k.cmds, isWf: k.wf}, 100)
 		res.label = k.name + " " + res.label
 		return res
 	}) {
@@ -747,6 +759,7 @@ func Run(dir string, seed uint64, n int, tier string) error {
 	parallel(n, func(i int) result {
 		r := root.Fork(uint64(i))
 		var c cycle.Cluster
+		var dra *draSpec
 		switch r.Intn(3) {
 		case 0:
 			c = sharedCluster(r)
@@ -763,7 +776,7 @@ func Run(dir string, seed uint64, n int, tier string) error {
 			}
 		}
 		g := &random{r: r, isWf: !r.Chance(1, 6), maxLen: r.Range(8, 60), nAlloc: map[string]int{}, evicted: map[string]bool{}, unevicted: map[string]bool{}}
-		res := runCase(c, fails, g, 60)
+		res := runCaseD(c, dra, fails, g, 60)
 		stream := "wf"
 		if !g.isWf {
 			stream = "nonwf"
@@ -775,6 +788,28 @@ func Run(dir string, seed uint64, n int, tier string) error {
 		add(x.res, x.stream)
 		if i < 3 {
 			out.Sample(x.res.label)
+		}
+	}
+	// worlds with DRA devices and resource claims: well-formed programs only, no ConvertAllAllocatedToPipelined
+	nd := n / 2
+	dgens := make([]result, nd)
+	parallel(nd, func(i int) result {
+		r := root.Fork(uint64(7000000 + i))
+		c, dra := claimsCluster(r)
+		fails := map[int]bool{}
+		if r.Chance(1, 4) {
+			for k := r.Range(1, 2); k > 0; k-- {
+				fails[r.Intn(6)] = true
+			}
+		}
+		g := &random{r: r, isWf: true, noConvert: true, maxLen: r.Range(8, 40), nAlloc: map[string]int{}, evicted: map[string]bool{}, unevicted: map[string]bool{}}
+		dgens[i] = runCaseD(c, dra, fails, g, 40)
+		return dgens[i]
+	})
+	for i, x := range dgens {
+		add(x, "claims")
+		if i < 2 {
+			out.Sample(x.label)
 		}
 	}
 	// real cycles: at most one call of each kind per pod
@@ -803,7 +838,7 @@ func Run(dir string, seed uint64, n int, tier string) error {
 			out.NonTrivial(x.label)
 		}
 	}
-	out.Stats["rule"] = "command programs (<= 60 commands: Evict / Pipeline / Allocate / Unevict / Checkpoint / Rollback / Discard / Commit / ConvertAllAllocatedToPipelined, nested checkpoints, evict-then-pipeline of the same pod to the same devices / other devices of the node / another node, re-eviction of a pod that was un-evicted earlier in the same statement (evict, un-evict, evict, un-evict ... of one pod by Unevict and by Pipeline onto its own node, then Commit / Rollback / Discard; counted in the distribution), Evict applied to pods that are already Releasing - evicted earlier by the same statement, by an earlier statement of the program, or terminating in the snapshot - as a legal command of the well-formed stream (weight 6 / 4 of ~35; one time in three Statement.Evict is handed a copy of the pod taken when the session was built, whose Status does not follow the statement, as the scenario solvers do; followed by un-evict / rollback / discard / commit; counted as evict-of-releasing-pod:* in the distribution), fractional, multi-fraction, gpu-memory, whole-GPU and CPU-only pods, Cache.Bind / Cache.Evict failures in 1/4 of the programs) run on the real framework.Statement over sessions from cycle.Build; 5/6 follow the status preconditions (wf), 1/6 ignore them (nonwf: run and compared with the model, not monitored); every well-formed program with a Rollback or Discard is ALSO run without the commands its rollbacks / discards undo (and without the Checkpoint / Rollback / Discard commands) on a second session built from the same cluster, under the same failure oracle (erasure clause: Cache calls of every Commit with all arguments - Bind: node, GPU groups, received resource type, device count, portion, GPU memory, charged quantities; Evict: pod and metadata; TaskPipelined: pod, node, groups - and the final projections with every pod's accepted resources and the queue usage the allocate / deallocate events carried must agree; distribution keys erasure:*); on clusters whose nodes have GPUs of different memory sizes the generator plans [checkpoint; place a gpu-memory pod on node A; rollback | place; discard] then [place it on a node B of another GPU memory size; commit] (at most three per program, counted as erasure:gpu-memory-pod-placed-on-other-gpu-memory-size-after-abandoned-placement), corpus E1..E10 hold the scenario of seeded/C13-2 (8000 / 16000 MiB GPUs, 4000 MiB pod) by Allocate, Pipeline, Discard, nested, with ConvertAllAllocatedToPipelined and with a refused Bind; plus real scheduling cycles for the at-most-once clause. The cases are independent sessions and run on C13_WORKERS (default 6) workers, emitted in order. Non-trivial = a program with a rollback or discard that undoes at least two operations of different kinds, or a cycle that issued a call; distinct by full program."
+	out.Stats["rule"] = "command programs (<= 60 commands: Evict / Pipeline / Allocate / Unevict / Checkpoint / Rollback / Discard / Commit / ConvertAllAllocatedToPipelined, nested checkpoints, evict-then-pipeline of the same pod to the same devices / other devices of the node / another node, re-eviction of a pod that was un-evicted earlier in the same statement (evict, un-evict, evict, un-evict ... of one pod by Unevict and by Pipeline onto its own node, then Commit / Rollback / Discard; counted in the distribution), Evict applied to pods that are already Releasing - evicted earlier by the same statement, by an earlier statement of the program, or terminating in the snapshot - as a legal command of the well-formed stream (weight 6 / 4 of ~35; one time in three Statement.Evict is handed a copy of the pod taken when the session was built, whose Status does not follow the statement, as the scenario solvers do; followed by un-evict / rollback / discard / commit; counted as evict-of-releasing-pod:* in the distribution), fractional, multi-fraction, gpu-memory, whole-GPU and CPU-only pods, Cache.Bind / Cache.Evict failures in 1/4 of the programs) run on the real framework.Statement over sessions from cycle.Build; 5/6 follow the status preconditions (wf), 1/6 ignore them (nonwf: run and compared with the model, not monitored); every well-formed program with a Rollback or Discard is ALSO run without the commands its rollbacks / discards undo (and without the Checkpoint / Rollback / Discard commands) on a second session built from the same cluster, under the same failure oracle (erasure clause: Cache calls of every Commit with all arguments - Bind: node, GPU groups, received resource type, device count, portion, GPU memory, charged quantities; Evict: pod and metadata; TaskPipelined: pod, node, groups - and the final projections with every pod's accepted resources and the queue usage the allocate / deallocate events carried must agree; distribution keys erasure:*); on clusters whose nodes have GPUs of different memory sizes the generator plans [checkpoint; place a gpu-memory pod on node A; rollback | place; discard] then [place it on a node B of another GPU memory size; commit] (at most three per program, counted as erasure:gpu-memory-pod-placed-on-other-gpu-memory-size-after-abandoned-placement), corpus E1..E10 hold the scenario of seeded/C13-2 (8000 / 16000 MiB GPUs, 4000 MiB pod) by Allocate, Pipeline, Discard, nested, with ConvertAllAllocatedToPipelined and with a refused Bind; plus n/2 programs over RESOURCE CLAIMS on sessions with the real dynamicresources plugin (claimsCluster: 2-3 nodes publishing 2-3 DRA devices each, CPU-only and whole-GPU pods, running pods that are the only consumer of a claim allocated on the highest free device while lower ones are free (3 in 4), running pods sharing a claim, a claim shared by a running and a pending pod, pending pods with an own or a shared unallocated claim, two-device claims, terminating consumers; well-formed programs of 8-40 commands without ConvertAllAllocatedToPipelined, Cache failures in 1/4; the claims dump - every pod's ResourceClaimInfo and the plugin's view of every claim - after every command, restore and erasure clauses on it, Bind's claim allocations compared between the two runs; corpus R1..R21: the scenario of seeded/C13-3 under Discard / Rollback / refused eviction / un-evict / re-placement, shared claims, pending pods sharing an unallocated claim (R14 = known finding C13-stale-claim-record), and the shapes of fixed finding C13-undo-aliases-saved-resource-claims R17..R21; Q1, Q2: queue usage float drift), plus real scheduling cycles for the at-most-once clause. The cases are independent sessions and run on C13_WORKERS (default 6) workers, emitted in order. Non-trivial = a program with a rollback or discard that undoes at least two operations of different kinds, or a cycle that issued a call; distinct by full program."
 	out.Stats["queue_usage_observable"] = "Session.QueueAllocatedResources (Allocated only, whole GPUs once >= 1); AllocatedNotPreemptible has no exported reader and is not compared; the erasure clause also compares, per queue, the exact net amount the allocate / deallocate events of the session carried (quantified AcceptedResource of the event's task, read through an own event handler registered after the plugins')"
 	return out.Flush()
 }
